@@ -301,6 +301,18 @@ def w_c16():
         return f"'mod' rejected because it shares a character with module 'm': {r2}"
 
 
+def w_c16b():
+    arch = LayeredArchitecture().layer("A").containing_modules(["p.a"]).layer("B").containing_modules(["p.b"])
+    r = LayerRule().based_on(arch).layers_that().are_named("A")
+    try:
+        r.are_named("B")
+    except Exception as e:  # noqa: BLE001
+        if impl.err_kind(e) == "improperlyConfigured":
+            return None
+        return f"second subject layer raises {type(e).__name__}"
+    return "a second subject layer is accepted (layers_that().are_named('A').are_named('B'))"
+
+
 # ----------------------------------------------------------------------------- C17 (same defect as C14c, label side)
 def w_c17():
     labels = _labels(["p", "p.a", "p.a+b", "p.a.x"], {"p.a": "A", "p.a+b": "Z"})
@@ -329,6 +341,7 @@ WITNESSES = {
     "F-C14c": ("C14", w_c14c),
     "F-C14d": ("C14", w_c14d),
     "F-C16": ("C16", w_c16),
+    "F-C16b": ("C16", w_c16b),
     "F-C17": ("C17", w_c17),
 }
 
